@@ -28,6 +28,9 @@ RULES = {
                     'perturbed along a and b; Hessdiag(f)(x) has shape (n,) with entry a from f perturbed along a; for scalar valued f '
                     'returning a 0-d value or a length-1 array',
     'R-KIND': 'complex valued f with the real-step methods: no real-only kernel receives complex data (no TypeError on any path)',
+    'R-INTDTYPE': 'integer x with an f that is integer valued there (x given as ints, polynomial f): no difference quotient input is '
+                  'stored into a buffer that took an integer dtype from f(x) (numpy would truncate f(x + h) silently); abstract run '
+                  'with dtype kinds, every store into an integer array is examined',
     'R-HESSDIAG-E2E': e2e.RULE_TEXT,
 }
 
@@ -41,7 +44,7 @@ def run(ctx):
         '(table level + end to end), shapes and data dependence of Hessian / Hessdiag calls, dtype-kind flow for complex valued f.')
     rep.assume('f real analytic; steps positive')
     formal.check_formal(rep, facts, ['LogHessdiagRule'], ctx.tier, min_configs=10)
-    mins = {'R-HESS-SIGNATURE': 20, 'R-MIRROR': 10, 'R-HESS-ORDER': 6, 'R-HESS-SHAPE': 8, 'R-KIND': 6, 'R-HESSDIAG-E2E': 8}
+    mins = {'R-HESS-SIGNATURE': 20, 'R-MIRROR': 10, 'R-HESS-ORDER': 6, 'R-HESS-SHAPE': 8, 'R-KIND': 6, 'R-INTDTYPE': 6, 'R-HESSDIAG-E2E': 8}
     for rid, text in RULES.items():
         rep.rule(rid, text, mins[rid])
     hess_signatures(ctx)
@@ -52,6 +55,7 @@ def run(ctx):
             e2e.run_one(rep, P, 'Hessdiag', method, None, order, 'sym-min', rule_id='R-HESSDIAG-E2E', dim=2)
     shapes(ctx)
     kinds(ctx)
+    int_dtype(ctx)
     from . import history
     history.run_cache_scenarios(rep, ctx.repo, 'Hessdiag', 2)
     rep.notes['trusted_base'] = ['python ast', 'ndverif abstract interpreter, stencil / Taylor-signature domain, data-abstract domain']
@@ -205,6 +209,34 @@ def shape_case(ctx, core, cls, n, fshape, method):
                   {'shape': list(shape), 'expected': list(expected), 'problems': problems[:3], 'path': path},
                   'shape %s, entries from f perturbed along their own coordinates' % (expected,), label,
                   key='%s shape %s' % (cls, key_extra))
+
+
+def int_dtype(ctx):
+    rep = ctx.rep
+    core = ctx.repo.module('core')
+    for cls in ('Hessian', 'Hessdiag', 'Gradient'):
+        for method in ('central', 'forward', 'backward', 'complex') + (('central2',) if cls == 'Hessian' else ()):
+            truncated = []
+
+            def hook(arr, v, k, truncated=truncated):
+                truncated.append('%s value %r stored into an integer array of shape %s' % ({'f': 'float', 'c': 'complex'}[k], v, arr.shape))
+
+            def body(s, cls=cls, method=method):
+                I = s.interp
+                C = I.get_global('core', cls)
+                f = tensor_f(s, 2, (), kind="f", exact_kind="i")
+                d = C(f, method=method)
+                return d(s.x_array((2,), kind='i'))
+            ndarr.CAST_HOOK = hook
+            try:
+                ex = explore(ctx.repo, body, pinned={'(np.abs(step) > 0).all()': True})
+            finally:
+                ndarr.CAST_HOOK = None
+            bad = [{'raises': exc.exc_name, 'message': exc.msg[:100]} for d, r, exc in ex.paths if exc is not None]
+            rep.check(not bad and not truncated, 'R-INTDTYPE', 'core.%s.__call__' % cls, core.relpath,
+                      {'paths': len(ex.paths), 'truncating_stores': sorted(set(truncated))[:2], 'exceptions': bad[:2]},
+                      'function values are kept in floating point buffers', '%s/%s/integer x, integer f(x)' % (cls, method),
+                      key='intdtype %s' % cls)
 
 
 def kinds(ctx):
